@@ -59,6 +59,10 @@ mod pseudo_simd_64;
 mod x86_avx2;
 mod x86_sse2;
 mod x86_sse4_1;
+#[cfg(fast_tlsh_verif)]
+#[allow(missing_docs)]
+#[allow(clippy::missing_docs_in_private_items)]
+pub(crate) mod verif_hooks;
 
 mod fuzzer;
 
